@@ -1,0 +1,21 @@
+//go:build !verif
+
+package iavl
+
+import (
+	"context"
+	"time"
+)
+
+// Hooks of the deterministic-simulation harness (build tag "verif"). Without
+// the tag they are empty functions the compiler removes: the shipped
+// behaviour is unchanged.
+
+func verifYield(string)              {}
+func verifSpawn(any)                 {}
+func verifEnter(any)                 {}
+func verifExit(any)                  {}
+func verifDone(any) bool             { return false }
+func verifBlockUntil(func() bool)    {}
+func verifSleep(time.Duration) bool  { return false }
+func verifStop(context.Context) bool { return false }
